@@ -362,7 +362,7 @@ func c12R5(c *core.Ctx, r *core.Report, ro *core.Roles, sorter *ssa.Function) {
 		for _, T := range c.Implementors(c.Iface("configure", "Configure")) {
 			initFn := c.DeclaredMethod(T, "Initialize")
 			field := sliceFieldOf(T, ld)
-			if initFn == nil || field == "" {
+			if initFn == nil || (field == "" && c.DeclaredMethod(T, "AddLoaders") == nil) {
 				continue
 			}
 			nCfg++
